@@ -36,16 +36,18 @@ func Gen(r *sx.Rng, idx int, focus string) sx.Tree {
 	return genScenario(r, focus)
 }
 
-func opPump(p, k int64) sx.Tree     { return sx.Ints(1, p, k) }
-func opStale(p, d int64) sx.Tree    { return sx.Ints(2, p, d) }
-func opRaw(p, o int64) sx.Tree      { return sx.Ints(3, p, o) }
-func opAhead(p, d int64) sx.Tree    { return sx.Ints(13, p, d) }
-func opMain(p, o int64) sx.Tree     { return sx.Ints(4, p, o) }
-func opRefresh() sx.Tree            { return sx.Ints(6) }
-func opRevoke() sx.Tree             { return sx.Ints(8) }
-func opCrash() sx.Tree              { return sx.Ints(12) }
+func opPump(p, k int64) sx.Tree       { return sx.Ints(1, p, k) }
+func opStale(p, d int64) sx.Tree      { return sx.Ints(2, p, d) }
+func opRaw(p, o int64) sx.Tree        { return sx.Ints(3, p, o) }
+func opAhead(p, d int64) sx.Tree      { return sx.Ints(13, p, d) }
+func opWild(p, d int64) sx.Tree       { return sx.Ints(15, p, d) }
+func opMain(p, o int64) sx.Tree       { return sx.Ints(4, p, o) }
+func opRefresh() sx.Tree              { return sx.Ints(6) }
+func opRevoke() sx.Tree               { return sx.Ints(8) }
+func opCrash() sx.Tree                { return sx.Ints(12) }
+func opRecCrash(p int64) sx.Tree      { return sx.Ints(14, p) }
 func opRequest(p, f, t int64) sx.Tree { return sx.Ints(9, p, f, t) }
-func opSetOwned(ps []int64) sx.Tree { return sx.T(sx.L(7), sx.Ints(ps...)) }
+func opSetOwned(ps []int64) sx.Tree   { return sx.T(sx.L(7), sx.Ints(ps...)) }
 func opKErr(code int64, wmerr bool, lows [][2]int64) sx.Tree {
 	l := []sx.Tree{}
 	for _, x := range lows {
@@ -141,6 +143,23 @@ func genScenario(r *sx.Rng, focus string) sx.Tree {
 	}
 	ops = append(ops, opRefresh())
 
+	gridStop := 12
+	if focus == "C09" {
+		gridStop = 30
+	}
+	if r.Chance(gridStop) {
+		// the owner stops while blocked on the emission of a record whose offset is on the progress-broadcast grid
+		w := wins[r.Intn(len(wins))]
+		k := (every-w.f%every)%every + every*r.Range(0, 1)
+		if k == 0 {
+			k = every
+		}
+		if w.f+k < w.t {
+			ops = append(ops, opPump(w.p, k), opRecCrash(w.p))
+			setOwned()
+			ops = append(ops, opRefresh())
+		}
+	}
 	disrupt := 10
 	if focus == "C09" {
 		disrupt = 22
@@ -149,6 +168,7 @@ func genScenario(r *sx.Rng, focus string) sx.Tree {
 	if focus == "C19" {
 		mainPct = 25
 	}
+	wild := r.Chance(12) // only a minority of cases is exposed to the known finding F11
 	steps := int(r.Range(3, 30))
 	lateAt := -1
 	if late >= 0 {
@@ -169,6 +189,19 @@ func genScenario(r *sx.Rng, focus string) sx.Tree {
 		w := wins[r.Intn(len(wins))]
 		size := w.t - w.f
 		switch {
+		case wild && r.Chance(10):
+			// unrestricted straggler (F11 exposure), often followed by what turns it into a loss: a re-assignment
+			ops = append(ops, opWild(w.p, r.Range(0, size+1)))
+			switch r.Intn(4) {
+			case 0:
+				ops = append(ops, opRevoke())
+				setOwned()
+				ops = append(ops, opRefresh())
+			case 1:
+				ops = append(ops, opCrash())
+				setOwned()
+				ops = append(ops, opRefresh())
+			}
 		case r.Chance(7):
 			ops = append(ops, opAhead(w.p, r.Range(0, 4)))
 		case r.Chance(mainPct):
@@ -192,7 +225,11 @@ func genScenario(r *sx.Rng, focus string) sx.Tree {
 				if r.Chance(40) {
 					ops = append(ops, opRevoke())
 				}
-				ops = append(ops, opCrash())
+				if r.Chance(35) {
+					ops = append(ops, opRecCrash(w.p)) // stops while handling the next record of w.p
+				} else {
+					ops = append(ops, opCrash())
+				}
 				if r.Chance(90) {
 					setOwned()
 					if r.Chance(90) {
@@ -279,10 +316,13 @@ func genChaos(r *sx.Rng, focus string) sx.Tree {
 		case 0, 1, 2:
 			ops = append(ops, opPump(part(), r.Range(1, 12)))
 		case 3:
-			if r.Bool() {
+			switch r.Intn(5) {
+			case 0, 1:
 				ops = append(ops, opStale(part(), r.Range(0, 10)))
-			} else {
+			case 2, 3:
 				ops = append(ops, opAhead(part(), r.Range(0, 5)))
+			default:
+				ops = append(ops, opWild(part(), r.Range(0, 12)))
 			}
 		case 4, 5:
 			ops = append(ops, opRaw(part(), off()))
@@ -305,10 +345,13 @@ func genChaos(r *sx.Rng, focus string) sx.Tree {
 			}
 			ops = append(ops, opSetOwned(ps))
 		case 11:
-			if r.Bool() {
+			switch r.Intn(3) {
+			case 0:
 				ops = append(ops, opRevoke())
-			} else {
+			case 1:
 				ops = append(ops, opCrash())
+			default:
+				ops = append(ops, opRecCrash(part()))
 			}
 		case 12, 13:
 			f := off()
